@@ -499,6 +499,9 @@ func runC11(r *Run, verifDir string) {
 	c11M8(r)
 	c11M9(r)
 	c11M11(r, "C11.M11")
+	r.Rule("C11.M12", "terminate closes the stream on every path (early exits only through a sound idempotence test); the dialer is given a context that keeps the caller's cancellation", 2)
+	terminateClosesStream(r, "C11.M12", "kmipclient")
+	c11DialerContext(r)
 	c11M6(r)
 }
 
@@ -1336,5 +1339,72 @@ func c11M11(r *Run, rule string) {
 	}
 	if !bad {
 		r.OK(rule, "ttlv.Stream/no-shared-write", token.NoPos, "no field written by one of Close/Recv/Send is accessed by another")
+	}
+}
+
+// c11DialerContext: every call of the client's dialer passes the caller's context itself or one derived from it
+// that keeps its cancellation (WithTimeout/WithDeadline/WithCancel/WithValue); context.WithoutCancel, Background()
+// or TODO() make a stalled re-dial ignore the caller's deadline while the client lock is held.
+func c11DialerContext(r *Run) {
+	p := r.P
+	n := 0
+	for _, fn := range pkgFuncs(p, "kmipclient") {
+		allInstrs(fn, func(in ssa.Instruction) {
+			call, ok := in.(*ssa.Call)
+			if !ok || call.Call.IsInvoke() || call.Call.StaticCallee() != nil || len(call.Call.Args) != 1 {
+				return
+			}
+			if typeName(call.Call.Args[0].Type()) != "Context" {
+				return
+			}
+			// callee value: a field named dialer (of Client or opts)
+			ld, ok := call.Call.Value.(*ssa.UnOp)
+			if !ok {
+				return
+			}
+			fa, ok := ld.X.(*ssa.FieldAddr)
+			if !ok || fname(derefStruct(fa.X.Type()).Field(fa.Field)) != "dialer" {
+				return
+			}
+			n++
+			key := fmt.Sprintf("%s/dialer-ctx#%d", fnKey(fn), n)
+			var derive func(v ssa.Value, d int) string
+			derive = func(v ssa.Value, d int) string {
+				if d > 5 {
+					return "?"
+				}
+				switch x := unspill(v).(type) {
+				case *ssa.Parameter:
+					return ""
+				case *ssa.FreeVar:
+					return ""
+				case *ssa.Extract:
+					return derive(x.Tuple, d+1)
+				case *ssa.Call:
+					id := callID(&x.Call)
+					if id.pkg == "context" {
+						switch id.name {
+						case "WithTimeout", "WithDeadline", "WithCancel", "WithCancelCause", "WithValue", "WithTimeoutCause", "WithDeadlineCause":
+							return derive(x.Call.Args[0], d+1)
+						default:
+							return "context." + id.name
+						}
+					}
+					return id.String()
+				}
+				return "?"
+			}
+			switch why := derive(call.Call.Args[0], 0); why {
+			case "":
+				r.OK("C11.M12", key, call.Pos(), "the dialer receives the caller's context (or a context derived from it that keeps its cancellation)")
+			case "?":
+				r.Unk("C11.M12", key, call.Pos(), "origin of the context handed to the dialer not understood")
+			default:
+				r.Bad("C11.M12", key, call.Pos(), "the dialer is called with a context obtained from %s, which does not carry the caller's cancellation or deadline: a re-dial that stalls (black-holed peer) blocks the call past its deadline while the client lock is held, so every concurrent caller hangs too", why)
+			}
+		})
+	}
+	if n == 0 {
+		r.Unk("C11.M12", "kmipclient/dialer-calls", token.NoPos, "no call of the dialer found")
 	}
 }
